@@ -444,7 +444,10 @@ fn rebuild(w: &mut World, n: usize, v2: bool) -> VResult {
     if a != b {
         // known finding F19 is identified by the rebuilt document holding a stash
         return Err(viol(
-            if has_missing(&fresh) { "gc.rebuild-stashed" } else { "gc.rebuild" },
+            // ... or by the source holding one (blocks whose own dependencies are present sit behind
+            // another stashed block of their client; the rebuilt document, which gets everything
+            // at once, integrates them)
+            if has_missing(&fresh) || has_missing(&doc) { "gc.rebuild-stashed" } else { "gc.rebuild" },
             format!(
                 "a document rebuilt from the full state of node {} (skip_gc={}) differs from it\n  node   : {}\n  rebuilt: {}",
                 n, w.nodes[n].cfg.skip_gc, a, b
